@@ -346,7 +346,8 @@ TopView(t, ps, buf) == [t |-> t, ps |-> [i \in 1..Len(ps) |-> Known(ps[i])], st 
 
 ---------------------------------------------------------------------------
 (* Writes (C03).  A *target* is a path to a physical scalar, possibly through aliases, anonymous bits
-   and nested structures, or a virtual field of the form y+c, c+y, y-c, c-y (f.xform). *)
+   and nested structures, or a virtual field whose value adds/subtracts constants to/from one field (f.xform
+   names that field; the inverse is computed from the value expression itself, see Inv). *)
 
 NoLoc == [ok |-> FALSE, inbits |-> FALSE, byteOff |-> 0, nbytes |-> 0, order |-> "LE", bitOff |-> 0, w |-> 0]
 Loc0 == [NoLoc EXCEPT !.ok = TRUE]
@@ -380,6 +381,18 @@ Splice(buf, loc, raw) ==
       new == BytesOfU(u2, loc.nbytes, loc.order)
   IN SubSeq(buf, 1, loc.byteOff) \o new \o SubSeq(buf, loc.byteOff + loc.nbytes + 1, Len(buf))
 
+(* Inverse of an add/subtract expression over ONE field: the value y of that field for which the expression
+   reads x.  Covers the documented simple transforms  y + c,  c + y,  y - c,  c - y  and any nesting of them
+   ((y - 50) + 30, 100 - (y - 5), ...): [ok, x] *)
+RECURSIVE Inv(_, _)
+Inv(e, x) ==
+  CASE e.k = "ref" -> [ok |-> TRUE, x |-> x]
+    [] e.k = "op" /\ e.fn = "+" /\ e.args[2].k = "int" -> Inv(e.args[1], x - e.args[2].v)
+    [] e.k = "op" /\ e.fn = "+" /\ e.args[1].k = "int" -> Inv(e.args[2], x - e.args[1].v)
+    [] e.k = "op" /\ e.fn = "-" /\ e.args[2].k = "int" -> Inv(e.args[1], x + e.args[2].v)
+    [] e.k = "op" /\ e.fn = "-" /\ e.args[1].k = "int" -> Inv(e.args[2], e.args[1].v - x)
+    [] OTHER -> [ok |-> FALSE, x |-> 0]
+
 RECURSIVE DestOf(_, _, _)
 (* the physical scalar a write to `path` finally lands on, and the value stored there:
    [ok, pv (view containing it), f (its field), path (alias-free path from v), x] *)
@@ -390,11 +403,9 @@ DestOf(v, path, x) ==
      ELSE IF f.kind = "virt" /\ f.alias # <<>> THEN DestOf(pv, f.alias, x)
      ELSE IF f.kind = "virt" /\ f.xform # <<>> THEN
           LET t == f.xform[1]
-              y == CASE t.op = "y+c" -> x - t.c
-                     [] t.op = "y-c" -> x + t.c
-                     [] t.op = "c-y" -> t.c - x
-              d == DestOf(pv, t.dest, y)
-          IN [d EXCEPT !.reqok = d.reqok /\ ReqHolds(pv, f.requires, Known(x))]
+              y == Inv(f.value, x)
+              d == DestOf(pv, t.dest, y.x)
+          IN [d EXCEPT !.ok = d.ok /\ y.ok, !.reqok = d.reqok /\ ReqHolds(pv, f.requires, Known(x))]
      ELSE [ok |-> FALSE, v |-> pv, f |-> f, x |-> x, reqok |-> FALSE, path |-> path]
 
 (* CouldWriteValue: representable in the field and satisfying every [requires] on the way *)
